@@ -134,23 +134,33 @@ theorem redirect_hop_is_location (servers : List Server) (s : St) (rp : Resp) (l
     · split <;> simp [hget, hp, hs]
     · simp
 
-/-- C19 bodiless responses (to HEAD, and 1xx / 204 / 304) are complete at the blank line whatever Content-Length they
-carry: once such a response (not announcing chunked coding, not a redirect) is in, the request gets its entry — with an
+/-- C19 bodiless responses (to HEAD, and 1xx / 204 / 304) are complete at the blank line whatever Content-Length or
+Transfer-Encoding they carry: once such a response (not a redirect) is in, the request gets its entry — with an
 empty body and that status — and the client stops waiting, so the queue moves on -/
 theorem bodiless_response_completes (servers : List Server) (s : St) (rp : Resp)
     (hw : s.waited = true) (hp : s.pending = some rp) (hb : bodiless s.cur.method rp.status = true)
-    (hf : (rp.framing == 1) = false) (hr : isRedirect rp.status = false) :
+    (hr : isRedirect rp.status = false) :
     let s' := serviceResponse servers true s
     s'.waited = false ∧ s'.outcome = s.outcome ∧
     ∃ e, s'.entries = s.entries ++ [e] ∧ e.body = [] ∧ e.status = some rp.status ∧ e.errored = false := by
-  simp [serviceResponse, hw, hp, hb, hf, handle, hr, finish]
+  simp [serviceResponse, hw, hp, hb, handle, hr, finish]
 
-/-- C19-K2 witness (known finding, replayed on the implementation): a bodiless response that announces
-`Transfer-Encoding: chunked` (legal for HEAD / 304) is waited for forever; the request behind it is never sent -/
-theorem chunked_bodiless_sticks :
-    let servers : List Server := [⟨8101, [⟨200, none, lit "entity", 1, false⟩]⟩]
+/-- C19-K2 regression (fixed in the tree, 3095720): a response to HEAD that announces `Transfer-Encoding: chunked` is
+complete at the blank line; the request behind it is sent and answered -/
+theorem chunked_bodiless_completes :
+    let servers : List Server := [⟨8101, [⟨200, none, lit "entity", 1, false⟩, ⟨200, none, lit "two", 0, false⟩]⟩]
     let s := after false 8101 servers [⟨lit "HEAD", lit "/a", [], []⟩, ⟨lit "GET", lit "/b", [], []⟩] [true, true, true, true]
-    s.outcome = .stuck ∧ s.waited = true ∧ s.entries = [] ∧ s.queue.length = 1 := by
+    s.outcome = .running ∧ s.waited = false ∧ s.entries.map (·.body) = [[], lit "two"] ∧ s.queue = [] := by
+  decide
+
+/-- regression (fixed in the tree, 041b28b): the hop of a redirected HEAD is still a HEAD for the response parser — its
+response with a Content-Length is bodiless, the entry appears with the history attached and the queue moves on -/
+theorem redirected_head_completes :
+    let servers : List Server := [⟨8101, [⟨302, some ⟨false, 8101, lit "/r", []⟩, [], 0, false⟩, ⟨200, none, lit "entity", 0, false⟩,
+      ⟨200, none, lit "two", 0, false⟩]⟩]
+    let s := after false 8101 servers [⟨lit "HEAD", lit "/a", [], []⟩, ⟨lit "GET", lit "/b", [], []⟩] [true, true, true, true]
+    s.waited = false ∧ s.wire.map (·.method) = [lit "HEAD", lit "HEAD", lit "GET"] ∧
+      s.entries.map (·.body) = [[], lit "two"] ∧ s.entries.map (fun e => e.redirects.map (·.status)) = [[302], []] := by
   decide
 
 /-- the redirected request's own query arguments do not travel with the hop (test on a concrete world) -/
